@@ -37,6 +37,22 @@ DENY = [
     ('std::thread::LocalKey', 'thread-local state'),
     ('std::rc::', 'non-atomic reference counting'),
 ]
+# Arc / Weak operations whose result depends on how many other handles exist right now, i.e. on what other threads
+# are doing with their clones: the only way safe code without interior mutability can observe another thread
+REFCOUNT_OBSERVERS = {
+    'strong_count': 'reads the shared strong count', 'weak_count': 'reads the shared weak count',
+    'get_mut': 'succeeds only while no other handle exists', 'make_mut': 'clones or mutates depending on other handles',
+    'try_unwrap': 'succeeds only while no other handle exists', 'unwrap_or_clone': 'moves or clones depending on other handles',
+    'is_unique': 'reads the shared counts', 'into_inner': 'yields the value only to the last handle',
+    'upgrade': 'succeeds only while another thread still holds a strong handle',
+    'get_mut_unchecked': 'mutates shared data', 'increment_strong_count': 'manual count manipulation',
+    'decrement_strong_count': 'manual count manipulation',
+}
+# (caller trait impl, operation): confirmed by reading.  Arc::into_inner inside Drop::drop is the atomic
+# "last owner unlinks the node" step of the iterative list destructor: exactly one of several racing droppers
+# receives Some, the others None, and the only effect is which thread frees the node.
+REFCOUNT_ALLOWED = {('std::ops::Drop', 'into_inner')}
+
 # callers inside which atomics / cells are the implementation of a Sync abstraction we trust
 TRUSTED_CALLERS = ('std::sync::Arc', 'alloc::sync::', '<std::sync::Arc', 'drop_in_place<std::sync::Arc',
                    'std::sync::Weak', '<std::sync::Weak', 'alloc::raw_vec', 'std::alloc::', 'alloc::alloc::',
@@ -58,6 +74,9 @@ def check(ctx, prog, facts, is_control=False):
                       'take_action takes &self')
     ctx.rule('C18.4', 'no resolved callee reachable from local code is on the nondeterminism / shared-state '
                       'deny-list (atomics and cells only inside std Arc/fmt)')
+    ctx.rule('C18.5', 'no local code observes Arc/Weak reference counts (strong_count, get_mut, try_unwrap, make_mut, ..): '
+                      'their results depend on what other threads do with their clones; Arc::into_inner is allowed only '
+                      'inside a Drop impl (atomic last-owner unlink)')
     auto = {}
     for a in facts['adts']:
         if a['auto']:
@@ -177,6 +196,27 @@ def check(ctx, prog, facts, is_control=False):
                 if c.startswith(pat) or c.startswith('<' + pat):
                     ctx.ob('%s calls %s' % (name, c), False)
                     ctx.finding('EFFECT', name, pat, '%s calls %s (%s)' % (name, c, why), at=t['at'])
+    n_arc = 0
+    for name, f in prog.fns.items():
+        for _, t in prog.calls(name):
+            c = prog.callee(t) or ''
+            m = re.match(r'(?:std|alloc)::(?:sync|rc)::(Arc|Weak|Rc)::<[^>]*>::(\w+)$', c)
+            if not m:
+                continue
+            n_arc += 1
+            op = m.group(2)
+            if op not in REFCOUNT_OBSERVERS:
+                continue
+            owner = f
+            if f['kind'] == 'Closure':
+                owner = prog.fns.get(name.split('::{closure')[0], f)
+            ok = (owner.get('trait_impl'), op) in REFCOUNT_ALLOWED
+            ctx.ob('%s uses %s::%s%s' % (name, m.group(1), op, ' (inside Drop: atomic last-owner unlink)' if ok else ''), ok,
+                   sample=ok)
+            if not ok:
+                ctx.finding('REFCOUNT-OBSERVE', name, op, '%s calls %s: %s, so its behaviour depends on the interleaving '
+                            'with other threads holding clones' % (name, c, REFCOUNT_OBSERVERS[op]), at=t['at'])
+    ctx.setcount('arc_call_sites', n_arc)
     ctx.ob('%d monomorphic call/drop edges and %d local call sites: none hits the deny-list outside std internals'
            % (edges, sum(1 for n_ in prog.fns for _ in prog.calls(n_))), True)
     opaque = sorted(l for l in leaves if l.startswith(TRUSTED_LEAF_CRATES) and not l.startswith('drop_in_place<std::'))
